@@ -101,6 +101,14 @@ def gen(tier, rnd):
                 # the handler moves the ResponseStream (before some writes and/or just before ends)
                 kinds = ''.join(ch.upper() if rnd.random() < .5 else ch for ch in kinds) + ('M' if rnd.random() < .5 else '')
             L.append(line(1 << 20, 'stream', code, hs, cs, chunks, fl, kinds))
+    # the maximum response size at EVERY position of a response with a long header and a long cookie (quick: every third): the cap
+    # may fall inside a header or cookie value with room left for what follows; a response that does not fit must be refused as a
+    # whole, never emitted with a piece missing
+    for (hs, cs, body) in (([('Location', '/elsewhere/' + 'x' * 30)], ['sid=' + 'v' * 40 + '; Path=/; HttpOnly'], b'Ok'),
+                           ([('Server', 'a-rather-long-server-token/1.0'), ('Cache-Control', 'max-age=10, public')], ['a=b', 'lang=en; Domain=example.com'], b'')):
+        total = fixed_total(codes, 200, hs, cs, body)
+        for mx in range(8, total + 3, 3 if tier == 'quick' else 1):
+            L.append(line(mx, 'send', 200, hs, cs, [body]))
     # streamed batches around the cap
     for _ in range(N // 10):
         chunks = [body_of(rnd, rnd.choice([100, 300, 600])) for _ in range(rnd.randint(1, 3))]
@@ -210,7 +218,7 @@ def classify(ln, out):
     return (w[2], w[3], w[4].count('=') , w[5].count(',') + (w[5] != '-'), sz.bit_length(), w[8], out.split(' send=')[-1][:12])
 
 RULE = ('responses produced by a scripted handler on a live Http::Endpoint (127.0.0.1), read by a raw socket: every status code; 0..5 typed headers and 0..3 cookies from pools; '
-        'fixed bodies of 0..20000 bytes (every buffer doubling boundary, arbitrary octets, bodies that look like chunk terminators) with maximum response size far above, at total-1, total, total+1; '
+        'fixed bodies of 0..20000 bytes (every buffer doubling boundary, arbitrary octets, bodies that look like chunk terminators) with maximum response size far above, at total-1, total, total+1, and for two responses with long header and cookie values at every (quick: every third) position from 8 to total+2; '
         'streamed responses of 0..5 chunks (sizes incl. every change of the number of hex digits of the chunk-size line up to 0x100001) via write()/operator<<(const char*)/operator<<(int), zero-length writes, any flush pattern, the ResponseStream moved by the handler before some writes and/or before ends(), batches around the cap; HTTP/1.0 and 1.1 requests; fixed responses of 1..8 MB written through a 32 KB socket send buffer to a reader that pauses between bursts (the one queued buffer resumes after would-block many times): Content-Length and every body byte checked. '
         'The received bytes are checked by an independent RFC 7230 grammar and compared with the model\'s serialiser (header lines as sorted lists). non-trivial = distinct (mode, code, #headers, #cookies, size class, write kinds, outcome)')
 ASSUME = ['the handler does not set framing headers (Content-Length, Transfer-Encoding) itself', 'header/cookie values from the pools are in canonical written form',
